@@ -1,5 +1,6 @@
 import GeomVerif.Wire
 import GeomVerif.Spec.C02
+import GeomVerif.Spec.C02Coll
 
 namespace GeomVerif.Driver.C02
 open GeomVerif GeomVerif.Wire GeomVerif.C02
@@ -39,8 +40,42 @@ def encG1' (g : G1 UInt64) : Sexp := .list [.ofNat g.layout, .ofNat g.stride, en
 def encG2' (g : G2 UInt64) : Sexp :=
   .list [.ofNat g.layout, .ofNat g.stride, encCoord g.flat, encNats g.ends]
 
+/-! GeometryCollection histories -/
+
+def decMember : Dec (Coll.Member (List UInt64))
+  | .list [l, c] => do pure ⟨← nat l, ← coord c⟩
+  | _ => none
+
+def encMember (m : Coll.Member (List UInt64)) : Sexp := .list [.ofNat m.layout, encCoord m.payload]
+
+def decCollOp : Dec (Coll.Op (List UInt64))
+  | .atom "layout" => some .layout
+  | .atom "num" => some .num
+  | .atom "geoms" => some .geoms
+  | .list [.atom "geom", i] => (nat i).map .geom
+  | .list [.atom "setlayout", l] => (nat l).map .setLayout
+  | .list (.atom "push" :: gs) => (gs.mapM decMember).map .push
+  | _ => none
+
+def encCollOb : Coll.Ob (List UInt64) → Sexp
+  | .res r => encOutcome encUnit r
+  | .layout l => .ofNat l
+  | .num n => .ofNat n
+  | .geom r => encOutcome encMember r
+  | .geoms gs => encList encMember gs
+
+def runColl (inp go : Sexp) : Option Reply :=
+  match inp with
+  | .list ops => do
+      let ops ← ops.mapM decCollOp
+      let mo := (Sexp.list ((Coll.run Coll.model ops).map encCollOb)).toStr
+      let so := (Sexp.list ((Coll.run Coll.spec ops).map encCollOb)).toStr
+      pure ⟨mo, verdictOf (so == go.toStr) "collection history observations differ from the list-of-parts spec"⟩
+  | _ => none
+
 def handle (op : String) (inp go : Sexp) : Option Reply :=
   match op with
+  | "C02.hist.gc" => runColl inp go
   | "C02.hist.poly" | "C02.hist.mls" =>
       runBoth (polyModel (α := UInt64)) polySpec coords1 encG1' encCoords2 inp go
   | "C02.hist.mpoint" =>
